@@ -265,8 +265,12 @@ def _merge_and_report(prop, tier, seed, mod, results, wall, replay=None):
         err = _schema_check(evidence)
         if err:
             inconclusive.append("evidence failed schema validation: " + err)
-        os.makedirs(os.path.join(VERIF_DIR, "evidence"), exist_ok=True)
-        with open(os.path.join(VERIF_DIR, "evidence", f"{prop}.json"), "w") as f:
+        # evidence/ describes /repo itself; runs against another tree (mutation runs with
+        # VERIF_REPO=<scratch>) must not overwrite it
+        other = os.path.realpath(os.environ.get("VERIF_REPO", "/repo")) != os.path.realpath("/repo")
+        evdir = os.path.join(VERIF_DIR, ".evidence-other" if other else "evidence")
+        os.makedirs(evdir, exist_ok=True)
+        with open(os.path.join(evdir, f"{prop}.json"), "w") as f:
             json.dump(evidence, f, indent=1, sort_keys=True)
 
     # ---- report ---------------------------------------------------------------------------
